@@ -109,7 +109,7 @@ UNITS = [
     API("api_schnorrsig_sign", "h_api_schnorrsig_sign", ["secp256k1_schnorrsig_sign_internal", "secp256k1_keypair_load"],
         rc={"nonce_function_bip340_impl": "api_nonce_bip340_impl", "secp256k1_ecmult_gen": "api_ecmult_gen", "secp256k1_ge_set_gej": "api_ge_set_gej_public",
             "secp256k1_schnorrsig_challenge": "api_challenge"},
-        assumed=["secp256k1_schnorrsig_challenge"],
+        assumed=["secp256k1_schnorrsig_challenge"], timeout=900,
         note="declassified: key validity, nonce point r (public table), nonce function return value; nonce bytes independent per run; nonce_function_bip340_impl: C06.nonce_bip340; challenge hash sees public data only"),
     API("nonce_bip340", "h_api_nonce_bip340", ["nonce_function_bip340_impl"], unwind=70, bounded="message length 32; (BIP-340 algo, aux), (BIP-340 algo, no aux), (9-byte algo, aux)", note="real SHA-256; secret key32 and aux"),
     API("api_ecdh", "h_api_ecdh", ["secp256k1_ecdh", "ecdh_hash_function_sha256_impl"],
@@ -120,11 +120,11 @@ UNITS = [
         note="declassified: nonce-scalars-all-zero bit, key validity; keyaggcoef sees public data only"),
     API("api_musig_nonce_gen", "h_api_musig_nonce_gen", ["secp256k1_musig_nonce_gen", "secp256k1_musig_nonce_gen_internal", "secp256k1_nonce_function_musig"],
         rc={"secp256k1_ecmult_gen": "api_ecmult_gen", "secp256k1_ge_set_all_gej": "api_ge_set_all_gej_public"},
-        unwind=140, bounded="all optional arguments present", timeout=1200,
+        unwind=140, bounded="all optional arguments present", timeout=2400, tier="thorough",
         note="declassified: secrand-all-zero bit, the two public nonces (public table); nonce hash real; ge_set_all_gej: C06.ge_set_all_gej"),
     API("api_musig_nonce_gen_min", "h_api_musig_nonce_gen", ["secp256k1_musig_nonce_gen", "secp256k1_musig_nonce_gen_internal", "secp256k1_nonce_function_musig"],
         rc={"secp256k1_ecmult_gen": "api_ecmult_gen", "secp256k1_ge_set_all_gej": "api_ge_set_all_gej_public"},
-        unwind=140, bounded="no optional argument present", defs=["NONCE_GEN_MINIMAL"], timeout=1200,
+        unwind=140, bounded="no optional argument present", defs=["NONCE_GEN_MINIMAL"], timeout=600,
         note="as C06.api_musig_nonce_gen, seckey/msg/cache/extra all NULL"),
     API("ge_set_all_gej", "h_api_ge_set_all_gej", ["secp256k1_ge_set_all_gej", "secp256k1_ge_set_gej_zinv"], bounded="n = 2 points"),
     API("api_adaptor", "h_api_adaptor", ["secp256k1_ecdsa_adaptor_decrypt", "secp256k1_musig_adapt", "secp256k1_musig_extract_adaptor"],
